@@ -147,6 +147,30 @@ theorem no_adjacent_duplicates (fs0 : FS) (limit : Nat) (h0 : TermFS fs0) (evs :
     NoAdj ((boot limit fs0).run fixed evs).mem.forms :=
   run_noAdj evs (boot limit fs0) (boot_inv limit fs0 h0) hstart hok hout
 
+/-! ## the precondition on the initial directory is decidable -/
+
+/-- `TermFS` (the hypothesis of the session theorems) says the history file is absent, empty or ends
+with a newline — what every whole write of `tabAppend` lines produces, and checkable on a directory. -/
+theorem termFS_iff (fs : FS) :
+    TermFS fs ↔ (match fs.hist with
+      | none => True
+      | some c => c = [] ∨ c.getLast? = some NL) := by
+  unfold TermFS Terminated
+  cases h : fs.hist with
+  | none => simp
+  | some c =>
+    simp only [Option.some.injEq, forall_eq']
+    constructor
+    · rintro (h | ⟨x, rfl⟩)
+      · exact Or.inl h
+      · exact Or.inr (by simp)
+    · rintro (h | h)
+      · exact Or.inl h
+      · right
+        rcases List.eq_nil_or_concat c with rfl | ⟨pre, b, rfl⟩
+        · simp at h
+        · simp at h; subst h; exact ⟨pre, by simp⟩
+
 /-! ## stash -/
 
 /-- the stash file written by `Stash.Add` for forms satisfying the guard `stashOK` (non-empty lines
